@@ -75,11 +75,13 @@ func Compare(a, b any) int {
 }
 
 func Cmp[T int | int32 | int64 | int16 | int8 | uint | uint32 | uint64 | uint16 | byte | float32 | float64](a T, b any) int {
-	v := As[T](b)
-	if a == v {
+	// compare in float64: converting b to T truncates fractions, wraps negative
+	// numbers into unsigned types and overflows narrow types
+	x, y := float64(a), As[float64](b)
+	if x == y {
 		return 0
 	}
-	if a > v {
+	if x > y {
 		return 1
 	}
 	return -1
